@@ -18,7 +18,7 @@ LEVEL = "exploration"
 META = {
     "engine": "model-monitor",
     "technique": "runtime monitor: metamorphic equalities between observations (hooked option attributes + query-battery effects) of real servers started with an option on the command line, in the configuration file, in both, and with malformed files; exhaustive over options, option pairs and a malformed-file catalogue",
-    "text": "For every documented option the real server is started (forked child per observation) with the option absent, on the command line, in the file, and in both with different values; effective attributes and the answers of a query battery designed so that every option has a visible effect must satisfy: CLI-only == file-only, both == file-only(file value), option absent from file keeps CLI value (all ordered option pairs). Malformed files (invalid JSON, wrong top-level types, wrong value types early/late, empty, missing explicit file, unreadable by injected PermissionError) must yield a showMessage, leave attributes and effects as without file, and initialize must succeed. The option x channel matrix and the pair matrix are enumerated completely.",
+    "text": "For every documented option the real server is started (forked child per observation) with the option absent, on the command line, in the file, and in both with different values; effective attributes and the answers of a query battery designed so that every option has a visible effect must satisfy: CLI-only == file-only, both == file-only(file value), option absent from file keeps CLI value (all ordered option pairs). Malformed files (invalid JSON, wrong top-level types, wrong value types early/late, empty, missing explicit file, unreadable by injected PermissionError) must yield a showMessage, leave attributes and effects as without file, and initialize must succeed. The option x channel matrix and the pair matrix are enumerated completely. Observations are repeated after the document was re-indexed inside the server process; pp_defs is also given as a list of names.",
     "note": "trusted: the equalities themselves (no model of option resolution); boolean options cannot be set to false on the command line (absent = false); values are one or two representative non-default values per option",
 }
 RULE = ("tasks: eq1 (26 options), eq2 (26 options), eq3 (all ordered pairs of 26 options), malformed-file catalogue (16 kinds x 3 CLI option sets); each task = 2 "
